@@ -19,7 +19,7 @@ MANIFEST = {
 RULE = ('exception kind (builtin raise, raise after print, raised in called code, empty message) x want form (none, exact, with stack lines, '
         'wrong message, wrong type, non-traceback text, ellipsis, dotted name, old header) x position (first/middle/last) x '
         'IGNORE_EXCEPTION_DETAIL x ELLIPSIS x IGNORE_WANT: the full table (864 cells) in return mode (and raise mode in thorough), '
-        'traceback wants on non-raising code, and unit ops extract_exc_want / strip_details / check_exception on generated texts; '
+        'random composite programs with one fault at a random place (family c09_random), traceback wants on non-raising code, and unit ops extract_exc_want / strip_details / check_exception on generated texts; '
         'non-trivial = a raising statement is present')
 ASSUMPTIONS = ['the last line of traceback.format_exception_only is taken from the real run']
 
@@ -52,6 +52,8 @@ def correspondence(ctx, corr):
         common.run_family(ctx, corr, 'c03_table', {'raise_mode': True})
     corr.exhaustive = True
     common.run_family(ctx, corr, 'c03_noraise', {'count': 4 if ctx.quick else 40})
+    # random programs with one fault (every exception / traceback-want form among them) at a random place
+    common.run_family(ctx, corr, 'c09_random', {'count': 40 if ctx.quick else 1500})
     module_level(ctx, corr)
     outcome_level(ctx, corr)
     from xdoctest import checker, directive
@@ -217,7 +219,7 @@ def outcome_level(ctx, corr):
 
 
 def search(ctx, corr, broken):
-    return common.search_families(ctx, corr, [('c03_table', {}), ('c03_noraise', {'count': 10})])
+    return common.search_families(ctx, corr, [('c03_table', {}), ('c03_noraise', {'count': 10}), ('c09_random', {'count': 100})])
 
 
 def classify(ctx, hit):
